@@ -365,6 +365,24 @@ pub fn probe3_texts(tier: &str) -> Vec<String> {
             }
         }
     }
+    // two-alternative operands with prerelease-tagged bounds in both orders (a tagged alternative may
+    // lie inside an untagged wider one by bounds and still admit more)
+    let mut tagged: Vec<String> = vec![];
+    for v in ["1.0.0", "1.0.0-a", "2.0.0"] {
+        for op in ["", "<", "<=", ">", ">="] {
+            tagged.push(format!("{}{}", op, v));
+        }
+    }
+    tagged.push(">=1.0.0-a <1.0.0".to_string());
+    tagged.push(">=1.0.0-a <2.0.0".to_string());
+    tagged.push(">1.0.0-a <=1.0.0".to_string());
+    for a in 0..tagged.len() {
+        for b in 0..tagged.len() {
+            if a != b && (tagged[a].contains("-a") || tagged[b].contains("-a")) {
+                out.push(format!("{} || {}", tagged[a], tagged[b]));
+            }
+        }
+    }
     out
 }
 
@@ -1223,8 +1241,12 @@ pub fn explore(prop: &str, tier: &str, sink: &Sink, depth2: bool, triples: bool,
             .into_par_iter()
             .map(|i| {
                 let mut c = Counters::default();
-                for p in &e.probes3 {
+                for (pi, p) in e.probes3.iter().enumerate() {
                     let pe = || match &p.origin { Origin::Leaf(t) => json!({"parse": t}), _ => json!(null) };
+                    if pi % n0 == i {
+                        // every probe once against itself (idempotence, A \ A)
+                        ctx.check_pair(p, p, true, false, &pe, &pe, &mut c);
+                    }
                     for flip in [false, true] {
                         let prod = if !flip {
                             ctx.check_pair(&e.states[i], p, false, false, &|| e.expr_json(i), &pe, &mut c)
